@@ -989,6 +989,23 @@ func c16Break(r *RNG, idx []int32) ([]int32, string) {
 	if len(x) < 2 {
 		x = []int32{5, 9, 70}[:2+r.Intn(2)]
 	}
+	if r.Intn(4) == 0 {
+		// a defect in the MIDDLE of a consecutive run: first, last and the count still look like a
+		// dense ascending list (last-first == n-1)
+		n := 3 + r.Intn(6)
+		s := int32(r.Intn(200))
+		x = make([]int32, n)
+		for i := range x {
+			x[i] = s + int32(i)
+		}
+		p := 1 + r.Intn(n-2)
+		if p+1 < n-1 && r.Bool() {
+			x[p], x[p+1] = x[p+1], x[p]
+			return x, "dense-middle-swap"
+		}
+		x[p] = x[p-1]
+		return x, "dense-middle-equal"
+	}
 	pos := r.Intn(len(x) - 1)
 	switch r.Intn(3) {
 	case 0:
